@@ -26,7 +26,10 @@ ASSUMPTIONS = ["special methods do not raise TraitError themselves and validator
                "no __instancecheck__/__class__ overrides: PyObject_TypeCheck and isinstance coincide on the lattice",
                "`aitem != bitem` (identity) in the tuple check is modelled by structural inequality: no validator of the "
                "model returns a new object that is structurally identical to its input",
-               "hash and == are consistent on the lattice (dict lookup = first equal key)"]
+               "hash and == are consistent on the lattice (dict lookup = first equal key)",
+               "Instance(adapt='default') is generated stand-alone and inside Tuple / Union only: as a member of an "
+               "Either / TraitCompound the C code returns the enclosing trait's default (finding F49), the model the "
+               "member's own"]
 EXHAUSTIVE = {"quick": True, "thorough": True}
 DISTINCT_BY_OUTPUT = False
 
@@ -53,6 +56,9 @@ def corpus():
         case_v("Int", "(b 1)"),
         case_v("(Either 1 Int Str)", "N"),
         "d|-|(Either 1 Int (Either 0 Float (RangeI 0 5 0 0)) Str)|",
+        # adapt='default' inside a compound takes the ENCLOSING trait's default on the C path
+        # (default_value_for(trait, …) with trait = the compound): outside the model, see ASSUMPTIONS
+        "#" + case_v("(Either 0 CBool (Instance (u 2) 1 2 N))", "(nd 2 (2 2 2))"),
     ]
 
 
@@ -211,6 +217,9 @@ def differential(tterm, value, ctx, obj):
         kind = "exact-type-differs" if same_val else "value-differs"
     if head == "Tuple" and vc == "ts" and kind == "exact-type-differs":
         return [("tuple-subclass-exact-type", what)], fast, py
+    if head in ("Either", "CompoundH") and "(Instance" in V.show_sexp(tterm) and kind in ("value-differs", "exact-type-differs") \
+            and py == "ok N" and fast == "ok " + V.show_value(p.ct.default_value_for(obj, "x"), ctx):
+        return [("adapt-default-takes-enclosing-default", what)], fast, py
     if head in ("Instance", "InstanceH") and value is None and kind == "py-rejects-fast-accepts":
         # allow_none=False, but None is an instance of the class (object, NoneType)
         return [("instance-none-is-instance-of-class", what)], fast, py
@@ -279,6 +288,11 @@ def run_v(env, tt, v):
             hits.append(_hit("compound-any-member-not-callable",
                              "%s on %s gives %s although the Any member alone accepts: TraitCompound calls the validate "
                              "attribute of Any, which is None" % (tt, v, got)))
+        elif got != expected and expected == "ok N" and "(Instance" in tt \
+                and got == "ok " + V.show_value(p.ct.default_value_for(obj, "x"), ctx):
+            hits.append(_hit("adapt-default-takes-enclosing-default",
+                             "%s on %s gives %s (the compound's default), the Instance(adapt='default') member alone gives "
+                             "its own default None" % (tt, v, got)))
         elif got != expected:
             hits.append(_hit("compound-not-first-accepting:%s" % head,
                              "%s on %s gives %s; the alternatives alone, in evaluation order, give %s" % (
@@ -364,7 +378,7 @@ def run_q(a, b):
 
 
 def run_impl(case):
-    kind, env, a, b = case.split("|")
+    kind, env, a, b = case.lstrip("#").split("|")
     if kind == "v":
         return run_v(env, a, b)
     if kind == "d":
